@@ -435,8 +435,12 @@ class RecordingBackend(AsyncResultBackend):  # type: ignore[type-arg]
     async def set_progress(self, task_id: str, progress: Any) -> None:
         self.sc.trace.add("set_progress", OWNER.get(), task_id=task_id, state=str(progress.state), meta=safe_json(progress.meta))
         self.__dict__.setdefault("progress", {})[task_id] = progress
+        if self.stock is not None:
+            await self.stock.set_progress(task_id, progress)  # the bundled backend keeps the progress too
 
     async def get_progress(self, task_id: str) -> Any:
+        if self.stock is not None and self.sc.spec["backend"].get("stock_max", 100) >= 100:
+            return await self.stock.get_progress(task_id)
         return self.__dict__.setdefault("progress", {}).get(task_id)
 
     async def is_result_ready(self, task_id: str) -> bool:
